@@ -478,7 +478,9 @@ macro_rules! mul_div_widen {
                 const NBITS: u32 = <$Single>::NBITS;
                 let lhs2 = <$Double>::from(self) << frac_nbits;
                 let rhs2 = <$Double>::from(rhs);
-                let quot2 = lhs2 / rhs2;
+                // lhs2 is the minimum of $Double when all bits are fractional and
+                // self is the minimum; dividing that by -1 must wrap, not panic
+                let quot2 = lhs2.wrapping_div(rhs2);
                 let quot = quot2 as $Single;
                 let overflow = if_signed_unsigned! {
                     $Signedness,
